@@ -92,7 +92,7 @@ func Serve(h http.Handler, rec *Recorder, c ReqCase) {
 			r.Header.Add(k, v)
 		}
 	}
-	ctx := context.WithValue(context.Background(), keyCase, &caseCtx{id: c.ID, script: c.Script, credPrefix: c.CredPrefix})
+	ctx := context.WithValue(context.Background(), keyCase, &caseCtx{id: c.ID, script: c.Script, credPrefix: c.CredPrefix, api: h})
 	if c.Cancelled {
 		cctx, cancel := context.WithCancel(ctx)
 		cancel()
